@@ -14,9 +14,57 @@ import vlib
 ID = "C20"
 CLAIM = True
 MANIFEST_ENTRY = {
-    "text": "Coq theorems: the model of hasher.c's blake2b init/update/final (word buffering, lazy end-of-block compress, 128-bit counter carry) equals the RFC 7693 function for every message, digest length 1..64 and key 0..64 bytes; the models of base58_encode/base58_decode compute the Bitcoin-alphabet positional encoding and are mutual inverses within the 256/360-byte limits; model tied to the code by regenerated tables and by correspondence against the real module",
+    "text": "proof, partial: THEOREMS (Coq, closed under the global context) - the model of hasher.c's blake2b init/update/final (word "
+            "buffering, byte-alignment loop, lazy end-of-block compression, t0/t1 counter carry incl. beyond 2^64, key block, partial-word "
+            "output) equals the hand-transcribed RFC 7693 function for every message (no length bound), every chunking, digest length 1..64, "
+            "key 0..64 bytes; the models of base58_encode/base58_decode equal the positional Bitcoin-alphabet specification for inputs up to "
+            "256/360 bytes, reject exactly non-alphabet bytes, and are mutual inverses within those limits; stringer.hash = Base58(BLAKE2b) for "
+            "every digest length used at the compiler's call sites; the scraped tables/constants are the RFC's and Bitcoin's.  REFUTED: the "
+            "Lua entry point does not reject every digest length outside 1..64 (C int truncation; known finding, repair proposed).  BY "
+            "CORRESPONDENCE/TESTING ONLY: that the hand-written model is the C code (regenerated tables + differential runs of the real module, "
+            "of a C harness that #includes src/hasher.c under ASan/UBSan, against hashlib and an independent Python RFC/Base58 reference); "
+            "'stable across platforms' beyond LP64; nothing about collision resistance / distinctness of names",
+    "note": "trusted: Coq 8.16.1 kernel; hand transcription of RFC 7693 and the Bitcoin alphabet in coq/C20/Spec.v (validated by RFC appendix A / "
+            "reference KAT Examples and on every run against hashlib and a pure-Python RFC implementation); the hand-written model (tie = "
+            "scraped iv/sigma/G schedule/rotations/parameter block/limits/Base58 tables/masks/pad char/shift tables + correspondence, which is "
+            "testing); size_t = 64 bits, int = 32 bits; extraction with ExtrOcamlBasic; OCaml/Lua/C/Python glue; no cross-property file dependencies",
     "technique": "machine-checked proof in Coq over an executable model + regenerated parameters + extracted-model/implementation correspondence",
 }
+THEOREM_CLASSES = {
+    "C20_tables_are_rfc": "tripwire",                 # scraped = hand-written RFC constants; consumed by the main proofs
+    "C20_compress_is_rfc_F": "main",
+    "C20_blake2b_conforms": "main",
+    "C20_lblake2b_conforms": "corollary",
+    "C20_lblake2b_rejects_refuted": "refutation",     # open defect (known finding hasher:B 4294967301 - 78)
+    "C20_lblake2b_rejects_partial": "corollary",
+    "C20_lblake2b_default": "corollary",
+    "C20_digest_length": "corollary",
+    "C20_blake2b_streaming": "main",
+    "C20_blake2b_counter_carry": "main",
+    "C20_b58_tables_are_bitcoin": "tripwire",
+    "C20_b58_size_estimate": "corollary",             # arithmetic fact about the scraped 138/100, 256, 360
+    "C20_base58_encode_conforms": "main",
+    "C20_base58_encode_toolong": "corollary",
+    "C20_base58_decode_conforms": "main",
+    "C20_base58_decode_rejects": "corollary",
+    "C20_base58_decode_toolong": "corollary",
+    "C20_base58_decode_encode": "main",
+    "C20_base58_encode_decode": "main",
+    "C20_base58_spec_inverse": "main",                # about the specification itself (a bijection), not about the code
+    "C20_stringer_hash": "corollary",
+    "C20_stringer_hash_callsites": "corollary",
+}
+UNPROVED = [
+    "model = C code is not a theorem: the tie is the regenerated tables/constants (T) plus the correspondence (C) of the real module and of a C "
+    "harness that #includes src/hasher.c, under ASan/UBSan, against two independent references",
+    "loop structures of hasher.c are mirrored by hand (upd_align/upd_words/remainder, base58 carry loops, switch(bytesleft)); only their constants are scraped",
+    "the carry of blake2b_incr into input_offset[1] and the byte-alignment loop of blake2b_update are unreachable from the Lua API; they are exercised "
+    "only through harness/C20/stream.c (counter preset near 2^64 and 2^128, unaligned chunkings)",
+    "'stable across platforms': proved for size_t = 64 bits / int = 32 bits only (ASSUMPTIONS); 32-bit size_t changes blake2b_incr's carry test",
+    "'distinct names and cache keys': no injectivity/collision statement is made (not provable)",
+    "hasher.blake2b rejects digest lengths outside 1..64: REFUTED (C20_lblake2b_rejects_refuted), true only for arguments that fit a C int",
+    "C20_compress_is_rfc_F quantifies over message-word lists of any length (both sides read missing words as 0); blake2b_impl only ever passes 16 words (proved)",
+]
 ALLOWED_AXIOMS = []
 TRUSTED_BASE = [
     "coqc 8.16.1 kernel (vm_compute used for table comparisons, RFC test vectors and parameter facts; no native_compute)",
@@ -24,6 +72,8 @@ TRUSTED_BASE = [
     "RFC 7693 and the Bitcoin Base58 alphabet as transcribed by hand in coq/C20/Spec.v (validated by the RFC appendix A / keyed test vectors as Examples and against Python hashlib on every run)",
     "translator checks/C20.py:gen (regex scrape of iv, sigma, BLAKE2_G macro rotations and call schedule, 0x01010000, block size, b58 tables, MAXLENs, size factor from src/hasher.c)",
     "extraction: Require Extraction + ExtrOcamlBasic only; Z/positive/nat stay Coq inductives; no Extract Constant of our own",
+    "harness/C20/stream.c (#includes REPO/src/hasher.c; drives the static blake2b_init/update/final with preset counters and arbitrary chunkings, "
+    "and base58_encode/decode exactly as the Lua wrappers do; built with ASan+UBSan on every run), the pure-Python RFC 7693 in checks/C20.py (py_blake2b_from)",
     "ocaml/zutil.ml + coq/C20/driver.ml, harness/C20/ops.lua (calls require 'hasher' and nelua.utils.stringer), OCaml 4.13.1, gcc (interpreter rebuilt from REPO/src), Python hashlib.blake2b (third oracle)",
     "modelled rather than verified: hasher.c is mirrored by hand in coq/C20/Model.v (Base58 digit/limb buffers are kept least-significant-first, i.e. index-mirrored w.r.t. the C arrays); the tie is the correspondence run on every check",
 ]
@@ -129,6 +179,41 @@ def scrape(src):
     out["enc_base"] = int(m.group(2))
     if int(m.group(3)) != out["enc_base"]:
         raise RuntimeError("base58_encode: carry %% %s but carry /= %s" % (m.group(2), m.group(3)))
+    # structural constants of the byte/word plumbing (tripwires: the model keeps them literal, the tables theorem pins them)
+    m = re.search(r"memset\(b58, '(.)', zcount\);", src)
+    m2 = re.search(r"b58u\[i\] == '(.)'; \+\+i\)", src)
+    m3 = re.search(r"if \(b58u\[i\] & (0x[0-9a-fA-F]+)\)", src)
+    if not (m and m2 and m3):
+        raise RuntimeError("cannot find the Base58 pad character / high-bit test")
+    out["b58_pad_enc"] = ord(m.group(1))
+    out["b58_pad_dec"] = ord(m2.group(1))
+    out["b58_highbit"] = int(m3.group(1), 16)
+    m = re.search(r"static uint64_t load64_le\(const uint8_t s\[8\]\)\s*\{(.*?)\}", src, re.S)
+    if not m:
+        raise RuntimeError("cannot find load64_le")
+    body = re.sub(r"\s+", " ", m.group(1))
+    terms = re.findall(r"\(?\(uint64_t\)s\[(\d)\](?: << *(\d+)\))?", body)
+    if [int(i) for i, _ in terms] != list(range(8)) or body.count("|") != 7:
+        raise RuntimeError("load64_le has an unexpected shape: %r" % body)
+    out["load64_shifts"] = [int(sh or 0) for _, sh in terms]
+    m = re.search(r"static void store64_le\(uint8_t out\[8\], uint64_t in\)\s*\{(.*?)\}", src, re.S)
+    if not m:
+        raise RuntimeError("cannot find store64_le")
+    st = re.findall(r"out\[(\d)\]\s*=\s*\(?in(?:\s*>>\s*(\d+)\))?\s*&\s*(0x[0-9a-fA-F]+);", m.group(1))
+    if [int(i) for i, _, _ in st] != list(range(8)):
+        raise RuntimeError("store64_le has an unexpected shape")
+    out["store64_shifts"] = [int(sh or 0) for _, sh, _ in st]
+    out["store64_masks"] = sorted({int(mk, 16) for _, _, mk in st})
+    m = re.search(r"static uint64_t rotr64\(uint64_t x, uint64_t n\) \{ return \(x >> n\) \^ \(x << \((\d+) - n\)\); \}", src)
+    if not m:
+        raise RuntimeError("cannot find rotr64")
+    out["rotr_width"] = int(m.group(1))
+    m = re.search(r"(int|lua_Integer|long long|int64_t|ptrdiff_t)\s+digln;", src)
+    m2 = re.search(r"digln = (?:\([a-zA-Z_ ]+\))?luaL_optinteger\(L, 2, (\d+)\);", src)
+    if not (m and m2):
+        raise RuntimeError("cannot find the declaration / default of digln in lblake2b")
+    out["digln_is_c_int"] = (m.group(1) == "int")
+    out["default_dig"] = int(m2.group(1))
     m = re.search(r"t = \(\(uint64_t\)outi\[j\]\) \* (\d+) \+ c;\s*c = \(t & (0x[0-9a-fA-F]+)\) >> (\d+);\s*outi\[j\] = t & (0x[0-9a-fA-F]+);", src)
     if not m:
         raise RuntimeError("cannot find the limb loop of base58_decode")
@@ -216,6 +301,15 @@ def gen(ctx):
     L.append("Definition B58_DEC_CARRYMASK : Z := %d." % s["dec_carrymask"])
     L.append("Definition B58_DEC_CARRYSHIFT : Z := %d." % s["dec_carryshift"])
     L.append("Definition B58_DEC_LIMBMASK : Z := %d." % s["dec_limbmask"])
+    L.append("Definition B58_PAD_ENC_C : Z := %d." % s["b58_pad_enc"])
+    L.append("Definition B58_PAD_DEC_C : Z := %d." % s["b58_pad_dec"])
+    L.append("Definition B58_HIGHBIT_C : Z := %d." % s["b58_highbit"])
+    L.append("Definition LOAD64_SHIFTS_C : list Z := %s." % zl(s["load64_shifts"]))
+    L.append("Definition STORE64_SHIFTS_C : list Z := %s." % zl(s["store64_shifts"]))
+    L.append("Definition STORE64_MASKS_C : list Z := %s." % zl(s["store64_masks"]))
+    L.append("Definition ROTR_WIDTH_C : Z := %d." % s["rotr_width"])
+    L.append("Definition DIGLN_IS_C_INT : bool := %s." % ("true" if s["digln_is_c_int"] else "false"))
+    L.append("Definition DEFAULT_DIG_C : Z := %d." % s["default_dig"])
     stg = scrape_stringer()
     sites = stg["sites"]
     s["stringer_default_len"] = stg["default"]
@@ -272,17 +366,79 @@ def ref_b58dec(s):
     return b"\0" * z + (v.to_bytes((v.bit_length() + 7) // 8, "big") if v else b"")
 
 
+_IV = [0x6a09e667f3bcc908, 0xbb67ae8584caa73b, 0x3c6ef372fe94f82b, 0xa54ff53a5f1d36f1,
+       0x510e527fade682d1, 0x9b05688c2b3e6c1f, 0x1f83d9abfb41bd6b, 0x5be0cd19137e2179]
+_SIGMA = [[0, 1, 2, 3, 4, 5, 6, 7, 8, 9, 10, 11, 12, 13, 14, 15], [14, 10, 4, 8, 9, 15, 13, 6, 1, 12, 0, 2, 11, 7, 5, 3],
+          [11, 8, 12, 0, 5, 2, 15, 13, 10, 14, 3, 6, 7, 1, 9, 4], [7, 9, 3, 1, 13, 12, 11, 14, 2, 6, 5, 10, 4, 0, 15, 8],
+          [9, 0, 5, 7, 2, 4, 10, 15, 14, 1, 11, 12, 6, 8, 3, 13], [2, 12, 6, 10, 0, 11, 8, 3, 4, 13, 7, 5, 15, 14, 1, 9],
+          [12, 5, 1, 15, 14, 13, 4, 10, 0, 7, 6, 3, 9, 2, 8, 11], [13, 11, 7, 14, 12, 1, 3, 9, 5, 0, 15, 4, 8, 6, 2, 10],
+          [6, 15, 14, 9, 11, 3, 0, 8, 12, 2, 13, 7, 1, 4, 10, 5], [10, 2, 8, 4, 7, 6, 1, 5, 15, 11, 9, 14, 3, 12, 13, 0]]
+_M64 = (1 << 64) - 1
+
+
+def _py_F(h, block, t, last):
+    m = [int.from_bytes(block[8 * i:8 * i + 8], "little") for i in range(16)]
+    v = h[:] + _IV[:]
+    v[12] ^= t & _M64
+    v[13] ^= (t >> 64) & _M64
+    if last:
+        v[14] ^= _M64
+
+    def rotr(x, n):
+        return ((x >> n) | (x << (64 - n))) & _M64
+
+    def G(a, b, c, d, x, y):
+        v[a] = (v[a] + v[b] + x) & _M64; v[d] = rotr(v[d] ^ v[a], 32)
+        v[c] = (v[c] + v[d]) & _M64; v[b] = rotr(v[b] ^ v[c], 24)
+        v[a] = (v[a] + v[b] + y) & _M64; v[d] = rotr(v[d] ^ v[a], 16)
+        v[c] = (v[c] + v[d]) & _M64; v[b] = rotr(v[b] ^ v[c], 63)
+    for r in range(12):
+        s_ = _SIGMA[r % 10]
+        G(0, 4, 8, 12, m[s_[0]], m[s_[1]]); G(1, 5, 9, 13, m[s_[2]], m[s_[3]])
+        G(2, 6, 10, 14, m[s_[4]], m[s_[5]]); G(3, 7, 11, 15, m[s_[6]], m[s_[7]])
+        G(0, 5, 10, 15, m[s_[8]], m[s_[9]]); G(1, 6, 11, 12, m[s_[10]], m[s_[11]])
+        G(2, 7, 8, 13, m[s_[12]], m[s_[13]]); G(3, 4, 9, 14, m[s_[14]], m[s_[15]])
+    return [h[i] ^ v[i] ^ v[i + 8] for i in range(8)]
+
+
+def py_blake2b_from(i, outlen, key, msg):
+    """RFC 7693 BLAKE2b written independently of hashlib, with the block loop entered at block index i (counter i*128):
+    i = 0 is the RFC function (cross-checked against hashlib on every run)."""
+    h = _IV[:]
+    h[0] ^= 0x01010000 ^ (len(key) << 8) ^ outlen
+    data = (key + bytes(128 - len(key)) if key else b"") + msg
+    nblocks = max(1, (len(data) + 127) // 128)
+    t = i * 128
+    for b in range(nblocks - 1):
+        t += 128
+        h = _py_F(h, data[128 * b:128 * b + 128], t, False)
+    lastb = data[128 * (nblocks - 1):]
+    t += len(lastb)
+    h = _py_F(h, lastb + bytes(128 - len(lastb)), t, True)
+    return b"".join(x.to_bytes(8, "little") for x in h)[:outlen]
+
+
 def oracle(case):
     """Expected result line for a case, or None when the property says nothing about it
     (then only model-vs-implementation is compared)."""
     op = case[0]
+    if op == "b":
+        return "ok " + hx(hashlib.blake2b(case[1]).digest())              # documented default: 64 bytes, no key
+    if op == "K":
+        return oracle(("B", case[1], b"", case[2]))                        # key = "" is "no key"
+    if op == "S":
+        _, dig, key, t, chunks = case
+        return "ok " + hx(py_blake2b_from(t // 128, dig, key, b"".join(chunks)))
+    if op == "F":
+        _, i, dig, key, msg = case
+        return "ok " + hx(py_blake2b_from(i, dig, key, msg))
     if op in ("B", "R", "H"):
         _, dig, key, msg = case
         if len(key) > 64:
             return "err bad key size" if op != "R" else None
         if not (1 <= dig <= 64):
-            # documented: "digln between 1 and 64"; values that only pass after the C int truncation are outside the property
-            return "err bad digest size" if -2**31 <= dig < 2**31 and op != "R" else None
+            # documented: "digln between 1 and 64": every other value must be refused (C20 lblake2b_rejects_full)
+            return "err bad digest size" if op != "R" else None
         d = hashlib.blake2b(msg, digest_size=dig, key=key).digest()
         if op == "H":
             return "ok " + hx(ref_b58enc(d))
@@ -307,6 +463,12 @@ def oracle(case):
 
 def fmt(case):
     op = case[0]
+    if op == "S":
+        return "S %d %s %x %x %s" % (case[1], hx(case[2]), case[3] & _M64, (case[3] >> 64) & _M64, " ".join(hx(c) for c in case[4]))
+    if op == "F":
+        return "F %x %d %s %s" % (case[1], case[2], hx(case[3]), hx(case[4]))
+    if op == "K":
+        return "K %d %s" % (case[1], hx(case[2]))
     if op in ("B", "R", "H"):
         return "%s %d %s %s" % (op, case[1], hx(case[2]), hx(case[3]))
     return "%s %s" % (op, hx(case[1]))
@@ -314,6 +476,12 @@ def fmt(case):
 
 def parse(line):
     w = line.split()
+    if w[0] == "S":
+        return ("S", int(w[1]), unhx(w[2]), int(w[3], 16) | (int(w[4], 16) << 64), [unhx(x) for x in w[5:]])
+    if w[0] == "F":
+        return ("F", int(w[1], 16), int(w[2]), unhx(w[3]), unhx(w[4]))
+    if w[0] == "K":
+        return ("K", int(w[1]), unhx(w[2]))
     if w[0] in ("B", "R", "H"):
         return (w[0], int(w[1]), unhx(w[2]), unhx(w[3]))
     return (w[0], unhx(w[1]))
@@ -385,6 +553,36 @@ def gen_cases(ctx):
         add("args", ("B", dig, b"", b"x"))
     for kl in (65, 66, 128, 129):
         add("args", ("B", 32, bytes(kl), b"x"))
+    # (4b) default-argument paths of the Lua entry point: hasher.blake2b(m) and key = "" (not nil)
+    for _ in range(ctx.scale(40, 600)):
+        add("defaults", ("b", rbytes(rng, rng.choice(dense + [rng.randint(0, 300)]))))
+        add("defaults", ("K", rng.randint(1, 64), rbytes(rng, rng.choice(dense))))
+    add("defaults", ("K", 0, b"x"))
+    add("defaults", ("K", 65, b"x"))
+    # (4c) C harness that #includes REPO/src/hasher.c (harness/C20/stream.c): incremental updates with chunkings that enter
+    #      the byte-alignment loop (chunk lengths not multiples of 8, so later chunks start unaligned), and counters whose low
+    #      word wraps while hashing (t0 near 2^64: the carry into t1), also with t1 already at 2^64-1
+    def chunking(total):
+        out_, left = [], total
+        while left > 0:
+            n = min(left, rng.choice([1, 2, 3, 5, 7, 8, 9, 13, 63, 64, 65, 127, 128, 129, rng.randint(1, 200)]))
+            out_.append(n); left -= n
+        if rng.random() < 0.3:
+            out_.insert(rng.randrange(len(out_) + 1), 0)
+        return out_
+    starts = [0, 0, 1, (1 << 57) - 1, (1 << 57) - 2, (1 << 57) - 3, (1 << 57), (1 << 121) - 1, (1 << 121) - 2, rng.getrandbits(100)]
+    for _ in range(ctx.scale(260, 6000)):
+        total = rng.choice(dense + [rng.randint(0, 520)])
+        msg = rbytes(rng, total)
+        parts, pos = [], 0
+        for n in chunking(total):
+            parts.append(msg[pos:pos + n]); pos += n
+        i = rng.choice(starts)
+        key = rbytes(rng, rng.choice([0, 0, 0, 1, 32, 64]), "rand")
+        add("c-stream", ("S", rng.choice([1, 20, 32, 64, rng.randint(1, 64)]), key, i * 128, parts))
+    for _ in range(ctx.scale(60, 1500)):
+        add("rfc-spec", ("F", rng.choice(starts), rng.randint(1, 64), rbytes(rng, rng.choice([0, 0, 16, 64]), "rand"),
+                         rbytes(rng, rng.choice(dense + [rng.randint(0, 400)]))))
     # (5) stringer.hash = base58(blake2b)
     for _ in range(ctx.scale(150, 5000)):
         add("stringer", ("H", rng.choice([20, 20, 20, 8, 16, 32, 64, rng.randint(1, 64)]),
@@ -515,6 +713,29 @@ def run_sharded(cmd_for, lines, nshards, timeout, env=None):
     return res, None
 
 
+def build_c_harness(ctx):
+    """gcc -fsanitize=address,undefined harness/C20/stream.c with HASHER_C = REPO/src/hasher.c (cached by content hash)."""
+    src = os.path.join(vlib.VERIF, "harness", ID, "stream.c")
+    hc = os.path.join(vlib.REPO, "src", "hasher.c")
+    key = vlib.sha_files([src, hc])[:16]
+    exe = os.path.join(ctx.work, "stream-%s" % key)
+    if os.path.exists(exe):
+        return exe, None
+    cmd = ["gcc", "-O1", "-g", "-w", "-fsanitize=address,undefined", "-fno-sanitize-recover=all", "-fno-omit-frame-pointer",
+           "-I" + os.path.join(vlib.REPO, "src", "lua"), "-DHASHER_C=\"%s\"" % hc, src, "-o", exe + ".tmp%d" % os.getpid()]
+    rc, out, err = vlib.sh(cmd, timeout=300)
+    if rc != 0:
+        return None, (out + err)[-800:]
+    os.rename(exe + ".tmp%d" % os.getpid(), exe)
+    for f in os.listdir(ctx.work):
+        if f.startswith("stream-") and f != os.path.basename(exe) and ".tmp" not in f:
+            try:
+                os.remove(os.path.join(ctx.work, f))
+            except OSError:
+                pass
+    return exe, None
+
+
 def correspond(ctx):
     driver = vlib.ocaml_build(ID)
     interp = vlib.ensure_interp()
@@ -545,13 +766,51 @@ def correspond(ctx):
     lines = [fmt(c) for _, c in cases]
     shards = ctx.scale(4, 12)
     mlines, merr = run_sharded([driver], lines, shards, ctx.scale(600, 3000))
-    impl_idx = [i for i, (_, c) in enumerate(cases) if c[0] in ("B", "E", "D", "H", "h")]
+    impl_idx = [i for i, (_, c) in enumerate(cases) if c[0] in ("B", "E", "D", "H", "h", "b", "K")]
     ilines_, ierr = run_sharded([interp, os.path.join(vlib.VERIF, "harness", ID, "ops.lua")],
                                 [lines[i] for i in impl_idx], 2, 1200, env=vlib.lua_env())
     if mlines is None or ilines_ is None:
         ctx.violation("harness-run", "harness", "model driver: %s / lua harness: %s" % (merr, ierr), failing_input=False)
         return {"evaluations": 0, "distinct_nontrivial": 0, "rule": "harness failed", "samples": lines[:3]}
     ilines = {i: l for i, l in zip(impl_idx, ilines_)}
+    # the C harness: REPO/src/hasher.c compiled into harness/C20/stream.c with ASan+UBSan.  It is the implementation side of
+    # the S (incremental / counter) cases, and it re-runs a sample of the B/E/D cases through the static C functions so that
+    # every run (quick included) observes that the C code stays inside input[]/buf[]/outi[]/digest[].
+    charness = {"built": False}
+    cexe, cerr = build_c_harness(ctx)
+    s_idx = [i for i, (_, c) in enumerate(cases) if c[0] == "S"]
+    if cexe is None:
+        ctx.violation("harness-run", "harness", "C harness (harness/C20/stream.c + REPO/src/hasher.c) does not build: %s" % cerr, failing_input=False)
+    else:
+        def c_ok(c):     # the static blake2b() has the preconditions that lblake2b checks: only in-domain calls go to it
+            return c[0] in ("E", "D") or (c[0] == "B" and 1 <= c[1] <= 64 and len(c[2]) <= 64)
+        pool = [i for i in impl_idx if c_ok(cases[i][1]) and cases[i][0] != "b58-exhaustive"]
+        exh = [i for i in impl_idx if cases[i][0] == "b58-exhaustive"]
+        c_idx = sorted(s_idx + pool + ctx.rng.sample(exh, min(len(exh), ctx.scale(4000, 40000))))
+        senv = {"ASAN_OPTIONS": "detect_leaks=0:halt_on_error=1:abort_on_error=0", "UBSAN_OPTIONS": "halt_on_error=1:print_stacktrace=1"}
+        cout, cerr2 = run_sharded([cexe], [lines[i] for i in c_idx], ctx.scale(2, 6), 1800, env=senv)
+        charness = {"built": True, "cases": len(c_idx), "stream_cases": len(s_idx), "sanitizers": "address,undefined", "report": None,
+                    "differences_from_interpreter_build": 0}
+        if cout is None:
+            m = re.search(r"first-unanswered=`([^`]*)`", cerr2 or "")
+            rep = re.search(r"(ERROR: AddressSanitizer[^\n;]*|runtime error:[^\n;]*)", cerr2 or "")
+            charness["report"] = (cerr2 or "")[:1200]
+            ctx.violation("hasher-sanitizer:%s" % (m.group(1)[:300] if m else "?"), "oracle",
+                          "hasher.c built with ASan+UBSan reports %s on `%s`" % (rep.group(1) if rep else "an abort", (m.group(1) if m else "?")[:200]),
+                          detail={"case": m.group(1) if m else None, "stderr": (cerr2 or "")[-1500:],
+                                  "replay": "echo '<case>' | %s" % cexe}, failing_input=bool(m))
+            ctx.violations.insert(0, ctx.violations.pop()) if ctx.violations and ctx.violations[-1]["key"].startswith("hasher-sanitizer:") else None
+        else:
+            for i, o in zip(c_idx, cout):
+                if cases[i][1][0] == "S":
+                    ilines[i] = o
+                elif o != ilines[i]:
+                    charness["differences_from_interpreter_build"] += 1
+                    if charness["differences_from_interpreter_build"] <= 2:
+                        ctx.violation("hasher-cbuild-diff:%s" % lines[i][:300], "oracle",
+                                      "hasher.c compiled into the C harness and into the interpreter disagree on `%s`: %s vs %s" % (lines[i][:200], o[:100], ilines[i][:100]),
+                                      detail={"case": lines[i]})
+    impl_idx = sorted(impl_idx + [i for i in s_idx if i in ilines])
     nontrivial = set()
     per_op = {}
     results = {}
@@ -581,6 +840,9 @@ def correspond(ctx):
                 what = {"B": "hasher.blake2b differs from RFC 7693 (hashlib.blake2b)",
                         "H": "stringer.hash differs from base58(RFC 7693 BLAKE2b)",
                         "h": "stringer.hash (default length) differs from base58(RFC 7693 BLAKE2b-160)",
+                        "b": "hasher.blake2b(m) (default arguments) differs from RFC 7693 BLAKE2b-512",
+                        "K": "hasher.blake2b(m, n, '') differs from unkeyed RFC 7693 BLAKE2b",
+                        "S": "blake2b_init/update/final of hasher.c (incremental, counter preset) differ from RFC 7693 continued at that counter",
                         "E": "hasher.base58encode differs from the Bitcoin-alphabet encoding",
                         "D": "hasher.base58decode differs from the Bitcoin-alphabet decoding"}[op]
                 ctx.violation("hasher:%s" % line, "oracle",
@@ -679,7 +941,8 @@ def correspond(ctx):
         "roundtrip_failures": n_rt_fail,
         "traces_validated_against_impl": len(impl_idx) + len(rt_lines),
         "sanitizer_stream": san,
-        "unproved": [],
+        "sanitizer_c_harness": charness,
+        "unproved": list(UNPROVED),
         "limits": ["model = C code is not a theorem: the tie is the regenerated tables (T) plus this correspondence (C)",
                    "the t0 -> t1 counter carry of blake2b_incr is modelled and proved against the RFC's 128-bit counter but cannot be "
                    "observed by correspondence (needs a message of 2^64 bytes)",
